@@ -503,31 +503,34 @@ func (p *Prog) pathMasksD(fn *ssa.Function, preds []Pred, depth int) *pathInfo {
 				}
 			}
 			// selector atoms of the phis defined in s
-			var selClear, selSet uint64
-			for _, in := range s.Instrs {
-				ph, isPhi := in.(*ssa.Phi)
-				if !isPhi {
-					break
-				}
-				if bits := pi.sel[ph]; bits != nil {
-					pidx := -1
-					for i, pr := range s.Preds {
-						if pr == b {
-							if pidx >= 0 {
-								pidx = -2
-								break
+			selUpdate := func(pred, blk *ssa.BasicBlock) (clear, set uint64) {
+				for _, in := range blk.Instrs {
+					ph, isPhi := in.(*ssa.Phi)
+					if !isPhi {
+						break
+					}
+					if bits := pi.sel[ph]; bits != nil {
+						pidx := -1
+						for i, pr := range blk.Preds {
+							if pr == pred {
+								if pidx >= 0 {
+									pidx = -2
+									break
+								}
+								pidx = i
 							}
-							pidx = i
+						}
+						for _, bt := range bits {
+							clear |= bt
+						}
+						if pidx >= 0 && pidx < len(bits) {
+							set |= bits[pidx]
 						}
 					}
-					for _, bt := range bits {
-						selClear |= bt
-					}
-					if pidx >= 0 && pidx < len(bits) {
-						selSet |= bits[pidx]
-					}
 				}
+				return
 			}
+			selClear, selSet := selUpdate(b, s)
 			// a literal about a phi with selector atoms is resolved per path
 			var selPhi *ssa.Phi
 			var selLit Lit
@@ -603,8 +606,9 @@ func (p *Prog) pathMasksD(fn *ssa.Function, preds []Pred, depth int) *pathInfo {
 						if k2, ok := decidedSucc(s, t); ok {
 							f2 = forceBit[k2]
 						}
+						c2, s2 := selUpdate(s, t)
 						for _, a2 := range adds2 {
-							put(t, ((nm&^pi.kill[s.Index])|a2|orig)|f2)
+							put(t, ((((nm&^pi.kill[s.Index])|a2|orig)&^c2)|s2)|f2)
 						}
 					}
 				}
